@@ -78,6 +78,14 @@ def stepLine (m : Mode) (line : String) : Mode × List String :=
     | some b, .fresh => let (c, ls) := doFeed {} b; (.parser c, ls)
     | some b, .parser c => let (c', ls) := doFeed c b; (.parser c', ls)
     | _, _ => (m, ["bad-op"])
+  | ["method", h] =>
+    match bytesOfHex h with
+    | some b => (m, ["P method " ++ stdLookup stdMethods b])
+    | none => (m, ["bad-op"])
+  | ["version", h] =>
+    match bytesOfHex h with
+    | some b => (m, ["P version " ++ stdLookup stdVersions b])
+    | none => (m, ["bad-op"])
   | ["srv"] =>
     match m with
     | .fresh => (.server {}, ["P srv"])
